@@ -254,15 +254,6 @@ Definition check_property_wrapper (r : clean_result) : res unit :=
       else Exc e S_lib      (* KeyboardInterrupt etc. are not caught *)
   end.
 
-(* The cleaning of one slot as the rest of the model sees it.  Two instances:
-   - `clean_any`: the set {Ok, InvalidValueError}, used when the model is evaluated;
-   - `clean_via cl`: the wrapper applied to an arbitrary black box `cl`, used in the theorems. *)
-(* the first argument is the `interoperability` flag _check_property hands to clean() of certain property types *)
-Definition cleaner := bool -> ustring -> jvalue -> M unit.
-Definition clean_any : cleaner := fun _ _ _ => may [K_InvalidValueError].
-Definition blackbox := bool -> ustring -> jvalue -> clean_result.
-Definition clean_via (cl : blackbox) : cleaner := fun io n v => lift (check_property_wrapper (cl io n v)).
-
 (* ------------------------------------------------------------------ *)
 (* 5. typed dynamic operations on raw JSON                                *)
 
@@ -334,7 +325,25 @@ Definition keys (m : list (ustring * jvalue)) : list ustring := map fst m.
 
 Inductive refkind := RefNone | RefOne | RefMany.
 
-Record slot := { s_name : ustring; s_required : bool; s_default : bool; s_ref : refkind }.
+(* what the slot's clean() does with a value, as far as the structural cleaner follows it *)
+Inductive skind :=
+| KLeaf                              (* any other property type: black box *)
+| KEmbedded (ckey : string)          (* EmbeddedObjectProperty(type): a dict is passed to the class's constructor *)
+| KListEmbedded (ckey : string).     (* ListProperty(class): every element that is a mapping is passed to the constructor *)
+
+Record slot := { s_name : ustring; s_required : bool; s_default : bool; s_ref : refkind; s_kind : skind }.
+
+(* The cleaning of one slot as the rest of the model sees it: arguments are the effective allow_custom, the
+   `interoperability` flag _check_property hands to clean() of certain property types, the slot, and the raw value
+   (None = the property's default value).  Instances:
+   - `clean_any`: the set {Ok, InvalidValueError};
+   - `clean_via cl`: the wrapper applied to an arbitrary black box `cl`, used in the theorems;
+   - `clean_struct` (section 13): embedded-object slots constructed with this same model, everything else as clean_any. *)
+Definition cleaner := bool -> bool -> slot -> option jvalue -> M unit.
+Definition clean_any : cleaner := fun _ _ _ _ => may [K_InvalidValueError].
+Definition blackbox := bool -> bool -> slot -> option jvalue -> clean_result.
+Definition clean_via (cl : blackbox) : cleaner := fun ac io s v => lift (check_property_wrapper (cl ac io s v)).
+
 
 Inductive bkind := BPlain | BObs20 | BObs21 | BExt.
 
@@ -631,10 +640,10 @@ Section Init.
     end.
 
   (* _check_property for one defined slot; returns whether the slot is set afterwards *)
-  Definition check_slot (io : bool) (kind : bkind) (vr : jvalue) (s : slot) (val : option jvalue) : M bool :=
+  Definition check_slot (ac io : bool) (kind : bkind) (vr : jvalue) (s : slot) (val : option jvalue) : M bool :=
     match val with
     | Some v =>
-        clean io (s_name s) v ;;;
+        clean ac io s (Some v) ;;;
         match kind, s_ref s with
         | BObs20, RefOne | BObs20, RefMany | BObs21, RefOne | BObs21, RefMany => check_ref vr ;;; ret true
         | _, _ => ret true
@@ -642,7 +651,7 @@ Section Init.
     | None =>
         if s_default s then
           (* the default value goes through clean() as well *)
-          clean io (s_name s) JNull ;;;
+          clean ac io s None ;;;
           match kind, s_ref s with
           | BObs20, RefOne | BObs20, RefMany | BObs21, RefOne | BObs21, RefMany => check_ref vr ;;; ret true
           | _, _ => ret true
@@ -651,7 +660,7 @@ Section Init.
     end.
 
   (* the property loop: names in order; `present` accumulates the keys of setting_kwargs *)
-  Fixpoint prop_loop (io : bool) (kind : bkind) (vr : jvalue) (defined : list slot) (assigned : ustring -> option jvalue)
+  Fixpoint prop_loop (ac io : bool) (kind : bkind) (vr : jvalue) (defined : list slot) (assigned : ustring -> option jvalue)
            (order : list ustring) (present : list ustring) : M (list ustring) :=
     match order with
     | [] => ret present
@@ -659,10 +668,10 @@ Section Init.
         let val := match assigned n with Some v => if kept v then Some v else None | None => None end in
         match find_slot n defined with
         | Some s =>
-            b <- check_slot io kind vr s val ;;
-            prop_loop io kind vr defined assigned rest (if b then (present ++ [n])%list else present)
+            b <- check_slot ac io kind vr s val ;;
+            prop_loop ac io kind vr defined assigned rest (if b then (present ++ [n])%list else present)
         | None =>
-            prop_loop io kind vr defined assigned rest (match val with Some _ => (present ++ [n])%list | None => present end)
+            prop_loop ac io kind vr defined assigned rest (match val with Some _ => (present ++ [n])%list | None => present end)
         end
     end.
 
@@ -783,7 +792,7 @@ Section Init.
             let assigned := fun k => match jlookup k kw1 with Some v => Some v | None => jlookup k cpm' end in
             let tl_order := dedup_names (tlnames ++ filter (fun k => negb (mem_name k custom_kwargs)) extra)%list in
             let order := (propnames ++ filter (fun k => negb (mem_name k propnames)) tl_order ++ sort_names all_custom)%list in
-            present <- prop_loop io (c_kind c) vr defined assigned order [] ;;
+            present <- prop_loop ac' io (c_kind c) vr defined assigned order [] ;;
             if existsb (fun s => s_required s && negb (mem_name (s_name s) present)) defined
             then fail K_MissingPropertiesError
             else
@@ -999,7 +1008,65 @@ Section Store.
 End Store.
 
 (* ------------------------------------------------------------------ *)
-(* 12. rendering (case files)                                             *)
+(* 12. the structural cleaner: embedded objects are constructed with this same model                            *)
+
+Fixpoint class_named (k : string) (l : list (string * cls)) : option cls :=
+  match l with [] => None | (k', c) :: r => if String.eqb k k' then Some c else class_named k r end.
+
+Definition is_val {A} (r : res A) : bool := match r with Val _ => true | Exc _ _ => false end.
+
+(* what clean() of an embedded-object slot lets out of the wrapper: Ok if the construction can succeed,
+   InvalidValueError if it can fail (or `extra`: CustomContentError for custom content in strict mode) *)
+Definition wrap_embedded (extra : bool) (m : M unit) : M unit :=
+  ((if existsb is_val m then [Val tt] else []) ++
+   (if extra || existsb (fun r => negb (is_val r)) m then [Exc (Known K_InvalidValueError) S_lib] else []))%list.
+
+Fixpoint clean_struct (fuel : nat) (V : variant) (R : registry) (strictext : bool) (classes : list (string * cls)) : cleaner :=
+  fun ac io s ov =>
+    match fuel with
+    | O => may [K_InvalidValueError]
+    | S f =>
+        let sub := fun (c : cls) (io' : bool) (m : list (ustring * jvalue)) =>
+                     wrap_embedded (mem_key (us "custom_properties") m)
+                       (call_check m false ;;;
+                        construct V R (clean_struct f V R strictext classes) strictext (fun _ => TBad) c ac io' m) in
+        match ov with
+        | None => may [K_InvalidValueError]
+        | Some v =>
+            match s_kind s with
+            | KLeaf => may [K_InvalidValueError]
+            | KEmbedded k =>
+                match class_named k classes with
+                | None => may [K_InvalidValueError]
+                | Some c =>
+                    match v with
+                    (* self.type(allow_custom=allow_custom, and the dict as keywords): `interoperability` is not passed
+                       explicitly, so a member of that name is taken as the parameter *)
+                    | JObj m => sub c false (remove_key (us "interoperability") m)
+                    | _ => fail K_InvalidValueError                        (* "must be of type ..." *)
+                    end
+                end
+            | KListEmbedded k =>
+                match class_named k classes with
+                | None => may [K_InvalidValueError]
+                | Some c =>
+                    match v with
+                    | JArr [] => fail K_InvalidValueError      (* "must not be empty" *)
+                    | JArr l =>
+                        fold_right (fun item acc =>
+                                      match item with
+                                      | JObj m => sub c io m ;;; acc
+                                      | _ => fail K_InvalidValueError         (* "Can't create a ... out of ..." *)
+                                      end) (ret tt) l
+                    | _ => fail K_InvalidValueError     (* not iterable / a str or the keys of a dict are not mappings / empty *)
+                    end
+                end
+            end
+        end
+    end.
+
+(* ------------------------------------------------------------------ *)
+(* 13. rendering (case files)                                             *)
 
 Fixpoint show_exn (e : exn) : string :=
   match e with Known k => kname k | Derived _ b => "Derived:" ++ show_exn b end.
